@@ -7,23 +7,12 @@ Open Scope N_scope.
 
 (* ---------------- BigUint: limb arithmetic against N ---------------- *)
 
-(* Full-strength statement [forall a b, wf a -> wf b -> val (add a b) = val a + val b]
-   is REFUTED on the faithful model (and on the code): the final carry of
-   add_assign_internal is pushed at the wrong position when self is Small and
-   every limb written above limb 0 was zero. *)
-Theorem C01_add_spec_refuted : exists a b,
-  wf a = true /\ wf b = true /\ val (add a b) <> val a + val b.
-Proof.
-  exists (Small (W - 1)), (Large [1; W - 1]).
-  destruct add_spec_refuted_witness as (H1 & H2 & H3 & _). auto.
-Qed.
-Print Assumptions C01_add_spec_refuted.
-
-Theorem C01_add_spec_except_known : forall a b,
-  wf a = true -> wf b = true -> add_known a b = false ->
+(* add: full strength since the repair fcf264e.  (The code before it lost the
+   final carry for a Small left operand: BigUintProofs.add_old_refuted_witness.) *)
+Theorem C01_add_spec : forall a b, wf a = true -> wf b = true ->
   wf (add a b) = true /\ val (add a b) = val a + val b.
-Proof. exact add_spec_except_known. Qed.
-Print Assumptions C01_add_spec_except_known.
+Proof. exact add_spec. Qed.
+Print Assumptions C01_add_spec.
 
 Theorem C01_sub_spec : forall oc a b, wf a = true -> wf b = true -> val b <= val a ->
   exists r, sub oc a b = Ok r /\ wf r = true /\ val r = val a - val b.
@@ -71,26 +60,17 @@ Theorem C01_gcd_spec : forall oc a b, wf a = true -> wf b = true ->
 Proof. exact gcd_spec. Qed.
 Print Assumptions C01_gcd_spec.
 
-(* Full-strength pow statement (an Err ExpTooLarge only for exponents >= 2^64)
-   is REFUTED: a non-canonical exponent Large [5; 0] is refused. *)
-Theorem C01_pow_spec_refuted : exists a b,
-  wf a = true /\ wf b = true /\ val b < W /\ pow a b = Err EExpTooLarge.
-Proof.
-  exists (Small 2), (Large [5; 0]).
-  destruct pow_spec_refuted_witness as (H1 & H2 & H3 & H4 & _). auto.
-Qed.
-Print Assumptions C01_pow_spec_refuted.
-
-Theorem C01_pow_spec_except_known : forall a b,
-  wf a = true -> wf b = true -> pow_known a b = false ->
+(* pow: full strength since the repair 2c2d128 (significant limbs).  (The code
+   before it refused Large [5; 0]: BigUintProofs.pow_old_refuted_witness.) *)
+Theorem C01_pow_spec : forall a b, wf a = true -> wf b = true ->
   match pow a b with
   | Ok r => wf r = true /\ val r = val a ^ val b /\ ~ (val a = 0 /\ val b = 0)
   | Err EZeroPowZero => val a = 0 /\ val b = 0
   | Err EExpTooLarge => W <= val b
   | _ => False
   end.
-Proof. exact pow_spec_except_known. Qed.
-Print Assumptions C01_pow_spec_except_known.
+Proof. exact pow_spec. Qed.
+Print Assumptions C01_pow_spec.
 
 (* non-vacuity: non-canonical multi-limb operands satisfy the hypotheses *)
 Example C01_hypotheses_inhabited :
